@@ -1,4 +1,6 @@
 import J5V.Bcl.FmtDiffProofs
+import J5V.Bcl.TrailingBytes
+import J5V.Generated.BclunicodeFacts
 import J5V.Generated.BcltokensFacts
 /-!
 # C19 — editor format edits are well-formed and equal the formatter
@@ -76,20 +78,27 @@ theorem C19_fmtDiffs_wellformed (lines : List (List Nat)) (frags : List Edit)
 
 /-! ## Applying the edits equals the formatter -/
 
-/-- The property as stated: applying the edits to the document produces the formatter's output up to
-trailing blank lines (`EqT`: equal line lists after dropping trailing empty / whitespace-only lines and
-a final newline). `applyEdits` is the LSP application (every edit replaces the byte range between the
-starts of its lines; all edits refer to the original document). -/
-def C19_apply_eq_fmt_full : Prop :=
-  ∀ (cls : Cls) (bytes out : List Nat), fmtSrc cls bytes = .ok out →
-    ∃ es, fmtDiffsSrc cls bytes = .ok es ∧
-      EqT (blankLine cls) (applyEdits (splitLines bytes) es) out
+/-- After the last fragment only white space is left: every line of the source from the last
+fragment's end on is empty or whitespace-only. (Lexer: every rune that is not white space lies in a
+token that is not an EOL; walker: every such token ends on or before the last line of some fragment —
+a statement's trailing comment and EOL are on its last line.) -/
+theorem C19_trailing_blank (cls : Cls) (hcls : ClsNL cls) (bytes : List Nat) :
+    TrailingBlank cls bytes :=
+  trailingBlank_all cls hcls bytes
 
-/-- Proved for every source whose lines after the last fragment are blank (`TrailingBlank`, a
-decidable predicate of the source). What is missing for `C19_apply_eq_fmt_full`: deriving
-`TrailingBlank` from the lexer (everything the lexer skips outside tokens is white space, and the
-tokens left after the last fragment are EOLs) — a content invariant the present lexer lemmas, which
-track positions only, do not give. No input violating `TrailingBlank` is known or expected. -/
+/-- **Applying the edits to the document produces the formatter's output up to trailing blank lines**
+(`EqT`: equal line lists after dropping trailing empty / whitespace-only lines and a final newline).
+`applyEdits` is the LSP application: every edit replaces the byte range between the starts of its
+lines; all edits refer to the original document (`C19_apply_document`). For every byte string and every
+classifier for which `\n` is neither a letter nor a digit (`ClsNL`; Go's tables satisfy it:
+`C19_src_newline_class`). -/
+theorem C19_apply_eq_fmt (cls : Cls) (hcls : ClsNL cls) (bytes out : List Nat)
+    (hfmt : fmtSrc cls bytes = .ok out) :
+    ∃ es, fmtDiffsSrc cls bytes = .ok es ∧
+      EqT (blankLine cls) (applyEdits (splitLines bytes) es) out :=
+  fmtDiffs_apply_eq_fmt cls bytes (trailingBlank_all cls hcls bytes) out hfmt
+
+/-- the same with `TrailingBlank` as an explicit hypothesis instead of `ClsNL` (any classifier) -/
 theorem C19_apply_eq_fmt_partial (cls : Cls) (bytes : List Nat) (ht : TrailingBlank cls bytes)
     (out : List Nat) (hfmt : fmtSrc cls bytes = .ok out) :
     ∃ es, fmtDiffsSrc cls bytes = .ok es ∧
@@ -136,6 +145,7 @@ theorem trailingBlankB_sound (cls : Cls) (bytes : List Nat) (h : trailingBlankB 
   exact List.all_eq_true.mp h l hl
 
 example : TrailingBlank asciiCls sample := trailingBlankB_sound _ _ (by decide +kernel)
+example : ClsNL asciiCls := ⟨by decide, by decide⟩
 
 end J5V.Props.C19
 
@@ -150,6 +160,8 @@ theorem C19_src_fmtDiffs_conds : fmtDiffsConds =
      "idx == 0", "diff.FromLine > 0",
      "diff.FromLine > lastEnd+1 || (diff.FromLine == lastEnd+1 && lines.lines[lastEnd] != \"\")",
      "existing != diff.NewText"] := by decide
+/-- in Go's tables `\n` is white space only — neither a digit (bit 2) nor a letter (bit 4) -/
+theorem C19_src_newline_class : J5V.Generated.Bclunicode.asciiClass.getD 10 0 = 1 := by decide
 theorem C19_src_rangeLines : rangeLinesBody = "{ return strings.Join(ls.lines[from:to], \"\\n\") + \"\\n\" }" := by
   decide
 
